@@ -92,7 +92,8 @@ Inductive sdef :=
 | SAttr (o : sattr_obj) (name : bytes) (body : sattr_body)
 | SAttrDefault (name : bytes) (v : sattr_value)
 | SAttrValue (name : bytes) (o : sobj) (v : sattr_value)
-| SNewSymbols (syms : list bytes).                        (* NS_ : then one line LF TAB symbol per symbol *)
+| SNewSymbols (syms : list bytes)                         (* NS_ : then one line LF TAB symbol per symbol *)
+| SSignal (s : ssignal).                                  (* a top-level SG_ line (not directly after a BO_ block) *)
 
 Definition print_utok (t : utok) : bytes :=
   match t with
@@ -209,6 +210,7 @@ Definition print_def (d : sdef) : bytes :=
     kw_bit_timing ++ 58 :: 32 :: b ++ 32 :: 58 :: 32 :: b1 ++ 32 :: 44 :: 32 :: b2 ++ cr ++ [10]
   | SNodes ns => kw_nodes ++ 58 :: sp_list (fun n => n) ns ++ cr ++ [10]
   | SUnknown kw ts => kw ++ sp_list print_utok ts ++ cr ++ [10]
+  | SSignal s => print_signal s
   end.
 
 Fixpoint print (ds : list sdef) : bytes :=
@@ -381,6 +383,7 @@ Definition elab_def (line off : Z) (d : sdef) : def :=
   | SBitTiming (Some (b, Some (b1, b2))) => DBitTiming p (uint_value b) (uint_value b1) (uint_value b2)
   | SNodes ns => DNodes p ns
   | SUnknown kw _ => DUnknown p kw
+  | SSignal s => DSignal (elab_signal line off s)
   end.
 
 (** the denotation of one definition in the context of the attribute definitions before it (only
@@ -597,6 +600,7 @@ Definition wf_sdef (d : sdef) : Prop :=
   | SBitTiming (Some (b, Some (b1, b2))) => wf_uint b /\ wf_uint b1 /\ wf_uint b2
   | SNodes ns => Forall (fun n => ident_valid n = true) ns
   | SUnknown kw ts => ident_valid kw = true /\ dispatching kw = false /\ Forall wf_utok ts
+  | SSignal s => wf_signal s
   end.
 
 (** well-formedness in the context of the earlier attribute definitions *)
@@ -613,8 +617,18 @@ Fixpoint wf_defs (ctx : actx) (ds : list sdef) : Prop :=
   | d :: t => wf_sdef_ctx ctx d /\ wf_defs (ctx_step ctx d) t
   end.
 
+(** a top-level SG_ must not directly follow a BO_ block (it would be read as a signal of that message) *)
+Definition is_message (d : sdef) : bool := match d with SMessage _ _ _ _ _ => true | _ => false end.
+Definition is_signal (d : sdef) : bool := match d with SSignal _ => true | _ => false end.
+
+Fixpoint sg_placed (prev_msg : bool) (ds : list sdef) : Prop :=
+  match ds with
+  | [] => True
+  | d :: t => (prev_msg = true -> is_signal d = false) /\ sg_placed (is_message d) t
+  end.
+
 (** a whole file: no attribute definition precedes it *)
-Definition wf_file (ds : list sdef) : Prop := wf_defs [] ds.
+Definition wf_file (ds : list sdef) : Prop := wf_defs [] ds /\ sg_placed false ds.
 
 (** ------------------------------------------------------------------ layout *)
 
@@ -634,4 +648,4 @@ Fixpoint wf_items (ctx : actx) (its : list item) : Prop :=
 
 (** a whole file with its layout: line-end run, items, final blank lines *)
 Definition wf_lfile (cr : bytes) (its : list item) (gend : bytes) : Prop :=
-  cr_ok cr /\ wf_items [] its /\ blank_block gend.
+  cr_ok cr /\ wf_items [] its /\ sg_placed false (map snd its) /\ blank_block gend.
